@@ -1,7 +1,9 @@
 // further harness modules
 pub(crate) mod util;
+pub(crate) mod lockty;
+pub(crate) mod vlock;
 pub(crate) mod uptable;
-mod h_alloc;
+pub(crate) mod h_alloc;
 mod h_names;
 pub(crate) mod h_dirent;
 pub(crate) mod h_dir;
@@ -9,3 +11,9 @@ pub(crate) mod h_mini;
 mod h_exp;
 pub(crate) mod h_stor;
 pub(crate) mod h_cache;
+mod h_header;
+mod h_validate;
+pub(crate) mod h_api;
+mod h_lock;
+mod h_fault;
+mod h_chunky;
